@@ -22,6 +22,9 @@ type Zone struct {
 	// NegSOA: answers without records (NODATA, NXDOMAIN) carry the zone's SOA
 	// record in the authority section, as authoritative and recursive servers
 	// do (RFC 2308): TTL NegSOATTL, MINIMUM field NegSOAMin.
+	// FirstRead > 0: the first Read of every reply body hands over at most that
+	// many octets (the reply arrives in two pieces); the rest follows.
+	FirstRead int `json:"first_read,omitempty"`
 	// Glue > 0: answers to HTTPS questions carry, in the additional section, the
 	// address records of the names their ServiceMode records point at (RFC 9460
 	// 4.2), with TTL Glue (which may be smaller than the TTLs of the answer).
